@@ -80,63 +80,73 @@ def _run_suite(spec, suite, tier, rng, ctx, budget_scale=1):
            "crashes": [], "samples": [], "stats": {}}
     hname, hsrc, hkw = suite.harness
     exe = core.build_harness(hname, hsrc, **hkw)
+    seen = set()
+    outs = {}
+    all_cases = []
+    t_suite = time.time()
+
+    def eval_batch(cases, ncorpus, label):
+        core.renumber(cases, start=len(all_cases))
+        all_cases.extend(cases)
+        t0 = time.time()
+        impl = core.run_cases(exe, cases, chunk=suite.chunk, timeout=suite.timeout, args=suite.harness_args())
+        t1 = time.time()
+        model = None
+        if suite.compare and suite.driver and ctx.get("driver_ok", True):
+            model = core.run_cases(core.driver_exe(suite.driver), cases, chunk=max(suite.chunk, 200), timeout=suite.timeout)
+        t2 = time.time()
+        log("[%s/%s] %s%d cases (%d corpus): harness %.1fs, driver %.1fs" % (spec.pid, suite.name, label, len(cases), ncorpus, t1 - t0, t2 - t1))
+        for c in cases:
+            cid = str(c["id"])
+            io = impl.get(cid, {"out": [], "rc": -1, "err": "no output"})
+            iout = suite.normalize(io["out"])
+            outs[cid] = iout
+            res["evaluations"] += 1
+            key = suite.distinct_key(c, iout)
+            if key not in seen and suite.nontrivial(c, iout):
+                seen.add(key)
+                res["nontrivial"] += 1
+            if io["rc"] != 0:
+                res["crashes"].append({"case": c, "rc": io["rc"], "err": io["err"], "impl": iout})
+                continue
+            try:
+                msgs = suite.oracle(c, iout)
+            except Exception as e:  # an oracle that cannot parse the trace is a disagreement, not a verdict
+                msgs = []
+                res["disagreements"].append({"case": c, "impl": iout, "model": None, "diff": "oracle error: %r" % (e,)})
+            for m in msgs:
+                res["oracle_fail"].append({"case": c, "impl": iout, "msg": m})
+            if model is not None:
+                mo = model.get(cid, {"out": [], "rc": -1, "err": "no output"})
+                mout = suite.normalize(mo["out"])
+                if mo["rc"] != 0:
+                    res["disagreements"].append({"case": c, "impl": iout, "model": mout, "diff": "driver failed rc=%s %s" % (mo["rc"], mo["err"][-500:])})
+                else:
+                    d = core.first_diff(mout, iout)
+                    if d is not None:
+                        res["disagreements"].append({"case": c, "impl": iout, "model": mout,
+                                                     "diff": "line %d: model `%s` impl `%s`" % d})
+
     cases = []
     if suite.corpus_prefix:
         cases += core.load_corpus(suite.corpus_prefix)
     ncorpus = len(cases)
-    if budget_scale != 1:
-        cases += suite.gen_cases(rng, "thorough")
-    else:
-        cases += suite.gen_cases(rng, tier)
-        # the anchored headers differ from the validated tree: same generators, several more PRNG streams
+    cases += suite.gen_cases(rng, "thorough" if budget_scale != 1 else tier)
+    eval_batch(cases, ncorpus, "")
+    if budget_scale == 1:
+        # the anchored headers differ from the validated tree: same generators, more PRNG streams, until something concrete
+        # is found or the time budget of this suite is used up
+        budget = float(os.environ.get("VERIF_ESCALATE_BUDGET_S", "100"))
         for k in range(ctx.get("escalate", 0)):
-            cases += suite.gen_cases(random.Random(ctx.get("seed", 1) * 7919 + 31 * (k + 1) + len(suite.name)), tier)
-    core.renumber(cases)
-    t0 = time.time()
-    impl = core.run_cases(exe, cases, chunk=suite.chunk, timeout=suite.timeout, args=suite.harness_args())
-    t1 = time.time()
-    model = None
-    if suite.compare and suite.driver and ctx.get("driver_ok", True):
-        model = core.run_cases(core.driver_exe(suite.driver), cases, chunk=max(suite.chunk, 200), timeout=suite.timeout)
-    t2 = time.time()
-    log("[%s/%s] %d cases (%d corpus): harness %.1fs, driver %.1fs" % (spec.pid, suite.name, len(cases), ncorpus, t1 - t0, t2 - t1))
-    seen = set()
-    outs = {}
-    for c in cases:
-        cid = str(c["id"])
-        io = impl.get(cid, {"out": [], "rc": -1, "err": "no output"})
-        iout = suite.normalize(io["out"])
-        outs[cid] = iout
-        res["evaluations"] += 1
-        key = suite.distinct_key(c, iout)
-        if key not in seen and suite.nontrivial(c, iout):
-            seen.add(key)
-            res["nontrivial"] += 1
-        if io["rc"] != 0:
-            res["crashes"].append({"case": c, "rc": io["rc"], "err": io["err"], "impl": iout})
-            continue
-        try:
-            msgs = suite.oracle(c, iout)
-        except Exception as e:  # an oracle that cannot parse the trace is a disagreement, not a verdict
-            msgs = []
-            res["disagreements"].append({"case": c, "impl": iout, "model": None, "diff": "oracle error: %r" % (e,)})
-        for m in msgs:
-            res["oracle_fail"].append({"case": c, "impl": iout, "msg": m})
-        if model is not None:
-            mo = model.get(cid, {"out": [], "rc": -1, "err": "no output"})
-            mout = suite.normalize(mo["out"])
-            if mo["rc"] != 0:
-                res["disagreements"].append({"case": c, "impl": iout, "model": mout, "diff": "driver failed rc=%s %s" % (mo["rc"], mo["err"][-500:])})
-            else:
-                d = core.first_diff(mout, iout)
-                if d is not None:
-                    res["disagreements"].append({"case": c, "impl": iout, "model": mout,
-                                                 "diff": "line %d: model `%s` impl `%s`" % d})
-    for c in cases[:1] + cases[ncorpus:ncorpus + 2]:
+            if res["oracle_fail"] or res["crashes"] or time.time() - t_suite > budget:
+                break
+            extra = suite.gen_cases(random.Random(ctx.get("seed", 1) * 7919 + 31 * (k + 1) + len(suite.name)), tier)
+            eval_batch(extra, 0, "deepening %d: " % (k + 1))
+    for c in all_cases[:1] + all_cases[ncorpus:ncorpus + 2]:
         res["samples"].append({"input": c["lines"], "impl_output": outs.get(str(c["id"]), [])[:60]})
-    res["stats"] = suite.stats(cases, outs)
+    res["stats"] = suite.stats(all_cases, outs)
     res["exe"] = exe
-    res["cases"] = len(cases)
+    res["cases"] = len(all_cases)
     return res
 
 
@@ -310,9 +320,13 @@ def run_check(spec, tier="quick", replay=None):
                 for it in r["crashes"][:1]:
                     c = _shrink(suite, r["exe"], it, "crash")
                     found.append(("implementation crashed / sanitizer report", {"suite": suite.name, "case": c["lines"], "stderr": it["err"][-3000:]}))
-                for it in r["oracle_fail"][:1]:
+                for it in r["oracle_fail"]:
+                    # a listed finding is not the failing input we are looking for
+                    if matches_known({"signature": suite.signature(it["case"], it["msg"])}):
+                        continue
                     c = _shrink(suite, r["exe"], it, "oracle")
                     found.append((it["msg"], {"suite": suite.name, "case": c["lines"], "impl_output": it["impl"], "oracle": it["msg"]}))
+                    break
                 if found:
                     break
         for msg, payload in found:
